@@ -8,6 +8,7 @@ PROP = {
              "<=3 (quick) / <=4 (thorough) connections from {stream start, each processor output} to {stream end, each processor} - self-loops, 2-cycles, missing roots, "
              "connections out of an answering node included; (2) bounded-exhaustive: a fixed request direction reaching an answering processor and every response direction "
              "over two processors with <=3/<=4 connections from {stream start, the answering processor, each output}: rooted and rootless, cycles hanging off the answering node; "
+             "(2b) bounded-exhaustive: a fixed acyclic request direction and every response direction over the SAME processor keys (keys are only unique per direction) plus one more; "
              "(3) rapid: one or two flows (1-4 request and 0-3 response processors incl. Limiter) built mostly well-formed, then with small probabilities backward edges, "
              "references to the other flow in both forms, missing roots, dangling processor/flow references, wrong condition names, plus a quota file that is valid or 'messy' "
              "(zero/negative/non-numeric numbers, unknown units, dangling or forward parents, percentage roots, percentage children of concurrent parents, a second host). "
@@ -22,6 +23,7 @@ PROP = {
     "units": [
         dict({"pkg": "c05", "test": "TestEnumRequestGraphs", "kind": "plain", "shards": 8, "quick_shards": 4}, **_CRASH),
         dict({"pkg": "c05", "test": "TestEnumResponseGraphs", "kind": "plain", "shards": 8, "quick_shards": 4}, **_CRASH),
+        dict({"pkg": "c05", "test": "TestEnumSharedKeyGraphs", "kind": "plain", "shards": 8, "quick_shards": 4}, **_CRASH),
         dict({"pkg": "c05", "test": "TestRandomConfigs", "quick": 600, "thorough": 6000, "shards": 16}, **_CRASH),
         dict({"pkg": "c05", "test": "TestRegressionFixedDefects", "kind": "plain"}, **_CRASH),
     ],
